@@ -390,7 +390,9 @@ func onlyAccumulated(v *ssa.Call, key string) bool {
 				default:
 					return false
 				}
-			case *ssa.DebugRef, *ssa.If:
+			case *ssa.DebugRef:
+			case *ssa.If:
+				return false // a branch on the stored value itself (a remembered yes/no): that is looking at it
 			default:
 				return false
 			}
